@@ -119,6 +119,14 @@ func c06Scenarios() []*GbnScenario {
 			if id%3 == 0 {
 				sc.PingNs, sc.PongNs = int64(5*time.Second), int64(3*time.Second)
 			}
+			// timeout configurations: package defaults (resend = handshake = 1 s), the mailbox's
+			// (handshake 2 s above the resend timeout), and a short static resend timeout
+			switch id % 5 {
+			case 1:
+				sc.HsTimeout = 2 * time.Second
+			case 3:
+				sc.Static = 250 * time.Millisecond
+			}
 			scs = append(scs, sc)
 		}
 	}
@@ -155,6 +163,16 @@ func c06Scenarios() []*GbnScenario {
 		}
 		if rng.Intn(3) == 0 {
 			sc.SendGap = [2]time.Duration{time.Duration(rng.Intn(2500)) * time.Millisecond, time.Duration(rng.Intn(2500)) * time.Millisecond}
+		}
+		switch rng.Intn(5) {
+		case 0:
+			sc.HsTimeout = 2 * time.Second
+		case 1:
+			sc.HsTimeout = 3 * time.Second
+		case 2:
+			if sc.Static > 0 {
+				sc.Static = 250 * time.Millisecond
+			}
 		}
 		scs = append(scs, sc)
 	}
@@ -219,7 +237,7 @@ func TestC06(t *testing.T) {
 		if len(sc.Name) > 4 && sc.Name[:4] == "tail" {
 			class = "tail-loss"
 		}
-		r.Case(sc.Name, faulty, fmt.Sprintf("%s/n=%d/ka=%v/static=%v", class, sc.N, sc.PingNs > 0, sc.Static > 0))
+		r.Case(sc.Name, faulty, fmt.Sprintf("%s/n=%d/ka=%v/static=%v/hs=%v", class, sc.N, sc.PingNs > 0, sc.Static, sc.HsTimeout))
 		// an accepted message is delivered within `bound` of (acceptance, end of faults)
 		bound := 60*time.Second + 100*sc.Latency
 		switch {
